@@ -90,11 +90,18 @@ def handle (j : Json) : Except String Json := do
     let inp : ReloadIn := { name := toStr (← jstr j "name"), module := ← jnat j "module",
                             compileOk := ← jbool j "compileOk", outcome := outcome,
                             mtime := ← objOf (← jobj j "mtime"), fuel := ← jnat j "fuel", fx := fixesOf j }
-    let (w, r) := xreload { heap := heap, sysmods := sysmods } inp
-    let res := match r with
-      | .ok m => Json.mkObj [("ok", natJ m)]
-      | .error e => Json.mkObj [("err", errJ e)]
-    pure (Json.mkObj [("result", res), ("heap", Json.arr (w.heap.map objJ).toArray), ("sysmods", pairsJ w.sysmods)])
+    -- the mtime / unchanged-text guard (absent fields: the reload is attempted)
+    let lt := (j.getObjValAs? Nat "loadtime").toOption.getD 0
+    let mt := (j.getObjValAs? Nat "mtimeNs").toOption.getD lt
+    let same := (j.getObjValAs? Bool "same").toOption.getD false
+    let (w, g) := xreloadGuarded { heap := heap, sysmods := sysmods } inp lt mt same
+    let (res, skipped) := match g with
+      | .notModified => (Json.mkObj [("ok", natJ inp.module)], Json.str "not modified since load")
+      | .sameText => (Json.mkObj [("ok", natJ inp.module)], Json.str "text unchanged")
+      | .ran (.ok m) => (Json.mkObj [("ok", natJ m)], Json.null)
+      | .ran (.error e) => (Json.mkObj [("err", errJ e)], Json.null)
+    pure (Json.mkObj [("result", res), ("skipped", skipped), ("heap", Json.arr (w.heap.map objJ).toArray),
+                      ("sysmods", pairsJ w.sysmods)])
   | "livepatch" =>
     let heap ← (← jarr j "heap").toList.mapM objOf
     let sysmods ← pairsOf (← jarr j "sysmods")
